@@ -259,6 +259,35 @@ theorem C01_source_write (A : DArr) (d : Arr) (ix : IndexArg) :
     rw [hg]
     rfl
 
+/-- the guard of `/repo` 61e9077, spelled out: for an index without `Ellipsis` that h5py accepts, the NumPy probe
+counts exactly the elements h5py selects; data without elements is refused with ValueError iff the selection has
+elements; in every other case the write is h5py's `dataset[ix] = data` -/
+theorem C01_empty_source (A : DArr) (d : Arr) (ix : IndexArg) (ixs : List Ix) (sel : List AxisSel)
+    (hitems : ix.orFull.items = ixs.map .ix) (hs : select A.arr.shape ixs = .ok sel) :
+    h5SelectedCount A ix = some (selCount sel) ∧
+    (arrIsEmpty d = true → selCount sel ≠ 0 → writeData A d ix = .error (.err .valueError)) ∧
+    (arrIsEmpty d = false ∨ selCount sel = 0 → writeData A d ix = h5SetItem A ix.orFull d) := by
+  have hc := h5SelectedCount_select A ix ixs sel hitems hs
+  refine ⟨hc, ?_, ?_⟩
+  · intro he hn
+    unfold writeData
+    rw [hc, he]
+    obtain ⟨m, hm⟩ : ∃ m, selCount sel = m + 1 := ⟨selCount sel - 1, by omega⟩
+    rw [hm]
+    rfl
+  · intro h
+    have hg : (arrIsEmpty d && optTruthy (h5SelectedCount A ix)) = false := by
+      rw [hc]
+      rcases h with h | h
+      · rw [h]; rfl
+      · rw [h]; simp [optTruthy]
+    unfold writeData
+    rw [hg]
+    cases ix <;> rfl
+
+example : h5SelectedCount ⟨.int8, false, ⟨[2, 3], fun _ => .int 0⟩⟩ (.tuple [.ix (.slice none none (some (-1)))])
+    = some 6 := by decide
+
 /-- the methods of the read and creation paths that the model represents by hand (`__array__`, `read_direct`,
 `__iter__`, the dtype getters, `H5DataSet.__init__` with `maxshape=(None,)*rank`, `chunks=True` and the
 variable-length string type, `_is_empty`, `_selected_count`, `DataArray.create_new`) are what the model was
